@@ -28,7 +28,8 @@ import (
 //           messages decodes to exactly those messages, consuming exactly their bytes (a sentinel
 //           follows), earlier results intact after later decodes; 300 repetitions of one null/empty/nested
 //           message followed by other values through one decoder; inline = array form;
-//           btoi64 = strconv.ParseInt; itoa = strconv.FormatInt
+//           btoi64 = strconv.ParseInt; itoa = strconv.FormatInt; bulk strings around and beyond one megabyte followed
+//           by further messages, delivered whole and in pieces
 // ---------------------------------------------------------------------------
 
 type chunkReader struct {
@@ -297,6 +298,36 @@ func c10run(env sched.Env) *sched.Report {
 			}
 		}
 	}
+	// values beyond one megabyte (a top-level bulk string and one inside an array), followed by further messages in
+	// the same stream: delivered whole and in pieces of 7 bytes / 4 KiB / 64 KiB / 1 MiB
+	bigN := 0
+	for _, l := range []int{1<<20 - 3, 1<<20 - 2, 1<<20 - 1, 1 << 20, 1<<20 + 1, 1<<20 + 300000, 3<<20 + 5} {
+		for shape := 0; shape < 2; shape++ {
+			for _, bs := range []int{32, 4096, 8192} {
+				for _, piece := range []int{0, 7, 4096, 65536, 1 << 20} {
+					bigN++
+					if bigN%env.NShards != env.Shard || (piece == 7 && l > 1<<20+1) {
+						continue
+					}
+					v := resp.Bulk(c10text(l))
+					if shape == 1 {
+						v = resp.Array(resp.Int(7), resp.Bulk(c10text(l)), resp.BulkS("tail"))
+					}
+					stream := append(append(append([]byte{}, resp.Encode(v)...), resp.Encode(resp.BulkS("x"))...), resp.Encode(sentinel)...)
+					var cuts []int
+					for c := piece; piece > 0 && c < len(stream); c += piece {
+						cuts = append(cuts, c)
+					}
+					rep.Execs++
+					sched.Progress(nil)
+					if s, d := c10decodeStream(stream, cuts, bs, []resp.Value{v, resp.BulkS("x"), sentinel}); s != "" {
+						fail(s+" / value beyond one megabyte", fmt.Sprintf("bulk string of %d bytes (shape %d), reader buffer %d, delivered in pieces of %d: %s", l, shape, bs, piece, abbreviate([]byte(d))), c10case{Kind: "stream", Stream: stream, Cuts: cuts, Buf: bs, N: 3})
+					}
+				}
+			}
+		}
+	}
+
 	// long messages: one cut everywhere near the interesting boundaries
 	for vi, v := range vals {
 		if vi%env.NShards != env.Shard {
